@@ -340,6 +340,16 @@ impl Ctx {
             f
         }
     }
+    /// Explicit parent flags of map_to_with_table_flags. The recursive mapper sets PRESENT|WRITABLE on
+    /// the parent entries it creates by itself, so for it any set - including the empty one - is a
+    /// sound argument (no non-present parent entry can arise); a quarter of its cases use the raw set.
+    fn pick_map_pflags(&self, ix: u16) -> u64 {
+        if self.backend == Backend::Recursive && ix & 3 == 1 {
+            self.pflag_sets[pick(ix, self.pflag_sets.len())]
+        } else {
+            self.pick_pflags(ix)
+        }
+    }
     /// a data frame of the level's size that does not overlap any table frame
     fn pick_frame(&self, ix: u16, lvl: u8) -> Option<u64> {
         let size = model::size_of_level(lvl);
@@ -526,7 +536,7 @@ where
                             return Ok(());
                         }
                     };
-                    (lvl, ctx.pick_page(*page, lvl), fr, ctx.pick_flags(*flags, lvl), pflags.map(|p| ctx.pick_pflags(p)), *fail, false)
+                    (lvl, ctx.pick_page(*page, lvl), fr, ctx.pick_flags(*flags, lvl), pflags.map(|p| ctx.pick_map_pflags(p)), *fail, false)
                 }
                 MOp::IdentityMap { sz, frame, flags, fail } => {
                     let lvl = lvl_of(*sz);
@@ -543,6 +553,21 @@ where
                 _ => unreachable!(),
             };
             kind = if identity { 1 } else { 0 };
+            // A quarter of the data frames hold zeros instead of junk (a freshly cleared page is the
+            // most common content of a real data frame): code that wrongly reads a mapped frame as a
+            // page table then sees an *empty* table, the one content for which clean-up releases it.
+            let zero_sel = match op {
+                MOp::Map { frame, .. } | MOp::IdentityMap { frame, .. } => *frame,
+                _ => 0,
+            };
+            if zero_sel & 3 == 3 && !ctx.model.table_frames().contains(&frame) && !ctx.alloc.in_use.contains(&frame) {
+                let mm = mem();
+                for i in 0..512 {
+                    mm.write(frame, i, 0);
+                }
+                ctx.zeroed.insert(frame);
+                ctx.labels.push("zero-filled-data-frame".into());
+            }
             if identity && frame >= (1 << 47) {
                 // no identical virtual address exists: must panic, nothing may change
                 let r = by_size!(lvl, |S| {
